@@ -184,6 +184,21 @@ def guard_rules(repo, res, rule="GUARD"):
                     elif a["pat"]["k"] == "PWild":
                         wild_err = any(True for s in P.ctor_sites(a["body"], "Error::UnknownShell"))
                 ok = sorted(names) == ["bash", "fish", "pwsh", "zsh"] and wild_err
+        if not ok:
+            # .. or a lookup in a constant table of (name, Shell) pairs: found by equality with the given name, anything else is the error
+            pairs = []
+            for path_, c_ in repo.files.items():
+                if not path_.endswith("parse.rs"):
+                    continue
+                for it in c_.get("items", []):
+                    for cst in ([it] if it.get("k") == "Const" else [x for x in it.get("items", []) if x.get("k") == "Const"] if it.get("k") == "Impl" else []):
+                        for tup in A.walk(cst):
+                            if tup.get("k") == "Tuple" and len(tup.get("elems", [])) == 2 and tup["elems"][0].get("k") == "Lit" and tup["elems"][0].get("lit") == "str" and tup["elems"][1].get("k") == "Path" and "Shell::" in tup["elems"][1]["path"].replace("Self::", "Shell::"):
+                                pairs.append((tup["elems"][0]["v"], tup["elems"][1]["path"].split("::")[-1]))
+            finds = [m for m in A.walk(f4.body) if m["k"] == "MethodCall" and m["method"] in ("find", "position") and m["args"] and m["args"][0]["k"] == "Closure"
+                     and any(b["k"] == "Binary" and b["op"] == "==" for b in A.walk(m["args"][0]["body"]))]
+            okor = [m for m in A.walk(f4.body) if m["k"] == "MethodCall" and m["method"] in ("ok_or", "ok_or_else") and any(True for _ in P.ctor_sites(m, "Error::UnknownShell"))]
+            ok = sorted(pairs) == [("bash", "Bash"), ("fish", "Fish"), ("pwsh", "Pwsh"), ("zsh", "Zsh")] and len(finds) == 1 and len(okor) == 1 and not any(x["k"] == "Return" for x in A.walk(f4.body))
     res.check(ok, rule, f"{rule}:parse::Shell::from_str:UnknownShell", "any name other than bash/fish/zsh/pwsh after @ is UnknownShell", f4.loc() if f4 else "")
 
     # SubwordSpaces <= two adjacent children of a Sequence inside a word whose tail/head are both Terminal
